@@ -87,3 +87,11 @@ def intstr(x):
 
 def local(name):
     raise NotImplementedError("locals at the exit point are not observable natively")
+
+
+def fmt_value(r, name):
+    raise NotImplementedError("formatting maps are not observable natively")
+
+
+def fmt_template(r):
+    raise NotImplementedError
